@@ -103,6 +103,16 @@ async fn run_task(task: usize, prog: Vec<Value>, mut io: TaskIo, inc: u32) {
                 s.await;
                 json!("ok")
             }
+            "twin" => {
+                // two timers of this task for the same deadline, both registered; the first one is dropped again
+                let mut first = Box::pin(sleep(da));
+                let mut second = Box::pin(sleep(da));
+                poll_once(first.as_mut()).await;
+                poll_once(second.as_mut()).await;
+                drop(first);
+                second.await;
+                json!("ok")
+            }
             "polldrop" => {
                 {
                     let s = sleep(da);
@@ -166,6 +176,22 @@ struct AMod {
     join_mode: u8,
 }
 
+thread_local! {
+    /// [event_start calls, event_end calls] seen by the bracket-counting element of the module
+    static BRACKETS: RefCell<[u64; 2]> = const { RefCell::new([0; 2]) };
+}
+
+/// counts event_start / event_end: every module event (message, wake-up, start-up stage, tear-down) must close its bracket
+struct Balance;
+impl des::net::processing::ProcessingElement for Balance {
+    fn event_start(&mut self) {
+        BRACKETS.with(|b| b.borrow_mut()[0] += 1);
+    }
+    fn event_end(&mut self) {
+        BRACKETS.with(|b| b.borrow_mut()[1] += 1);
+    }
+}
+
 /// consumes every message of the module and forwards it into channel 0 (the module's handler never runs)
 struct Forwarder {
     tx0: std::rc::Rc<RefCell<Option<UnboundedSender<()>>>>,
@@ -181,6 +207,7 @@ impl des::net::processing::ProcessingElement for Forwarder {
 
 impl Module for AMod {
     fn stack(&self, mut stack: des::net::processing::ProcessingStack) -> des::net::processing::ProcessingStack {
+        stack.append(Balance);
         if self.pe_forward {
             stack.append(Forwarder { tx0: self.tx0.clone() });
         }
@@ -232,6 +259,7 @@ pub struct AOutcome {
     pub task_panics: usize,
     pub other_errors: usize,
     pub panicked: bool,
+    pub brackets: [u64; 2],
 }
 
 pub fn run_programs(progs: &[Vec<Value>], local: bool, tick_ns: u64, max_t: u64, pe_forward: bool) -> AOutcome {
@@ -242,6 +270,7 @@ pub fn run_programs_join(progs: &[Vec<Value>], local: bool, tick_ns: u64, max_t:
     silence_panics();
     OBS.with(|o| *o.borrow_mut() = vec![Vec::new(); progs.len()]);
     TASK_STATE_LIVE.with(|l| *l.borrow_mut() = 0);
+    BRACKETS.with(|b| *b.borrow_mut() = [0; 2]);
     TICK.with(|t| *t.borrow_mut() = Duration::from_nanos(tick_ns));
     let r = catch_unwind(AssertUnwindSafe(|| {
         let mut sim = Sim::new(());
@@ -249,7 +278,7 @@ pub fn run_programs_join(progs: &[Vec<Value>], local: bool, tick_ns: u64, max_t:
         let rt = Builder::seeded(5).quiet().max_time(SimTime::from_duration(Duration::from_nanos(tick_ns) * max_t as u32 + Duration::from_nanos(tick_ns / 2))).build(sim.freeze());
         rt.run()
     }));
-    let mut out = AOutcome { task_state_live: 0, obs: Vec::new(), not_finished: 0, task_panics: 0, other_errors: 0, panicked: false };
+    let mut out = AOutcome { task_state_live: 0, obs: Vec::new(), not_finished: 0, task_panics: 0, other_errors: 0, panicked: false, brackets: [0; 2] };
     match r {
         Err(_) => out.panicked = true,
         Ok(Ok(res)) => drop(res),      // (Sim, end time, profiler): released before the live counters are read
@@ -267,6 +296,7 @@ pub fn run_programs_join(progs: &[Vec<Value>], local: bool, tick_ns: u64, max_t:
         }
     }
     out.obs = OBS.with(|o| o.borrow().clone());
+    out.brackets = BRACKETS.with(|b| *b.borrow());
     // everything (runtime result included) has been dropped by now
     out.task_state_live = TASK_STATE_LIVE.with(|l| *l.borrow());
     out
@@ -333,6 +363,10 @@ pub fn replay(args: &[String]) {
                 }
             }
             if bad {
+                continue;
+            }
+            if out.brackets[0] != out.brackets[1] || out.brackets[0] == 0 {
+                fail("event_start / event_end calls of a processing element are not balanced over the run".into(), json!({"expected": "equal and > 0", "got": out.brackets}));
                 continue;
             }
             if out.task_state_live != 0 {
